@@ -305,23 +305,20 @@ example (fuel : Nat) (sr : UInt64) (inputs : Nat → List UInt64) (N : Nat) (m0 
     exact ⟨this, by simp [ConfSL, ConfS]⟩
 
 /-! the static hypotheses of `C06_session_swap_same_program` outside the narrow class: `g(y) = y*2`,
-`dsp(x) = mem(x) + (if x then 1 else g(x))`: mirgen publishes `[mem 0]` (nothing for the call in the `else` arm), the layout
-of all sites has the zero-sized child of the call in addition -/
+`dsp(x) = mem(x) + (if x then 1 else g(x))`: the labelled published layout lists the zero-sized child of the call in the
+`else` arm (the bare skeleton drops it), and IS the layout of all sites -/
 example :
     let gF : FnDecl := ⟨"g", ["y"], .bin .mul (.var "y") (.lit 2), none⟩
     let P : Prog := ⟨[], [gF], ⟨"dsp", ["x"],
       .bin .add (.mem (.var "x") 0) (.ite (.var "x") (.lit 1) (.call "g" [.var "x"] 1)), none⟩⟩
-    publishFn P P.dsp = some ⟨none, [.mem 0]⟩ ∧ fullFn P P.dsp = some ⟨none, [.mem 0, .child 1 none []]⟩ ∧
-    noStateInArms P P.dsp.body = false ∧ noStatefulInArms P P.dsp.body = true ∧ SitesUnique P ∧ SitesOk P.dsp.body ∧
-    ExtL [.mem 0] [.mem 0, .child 1 none []] := by
+    publishFn P P.dsp = some ⟨none, [.mem 0, .child 1 none []]⟩ ∧ fullFn P P.dsp = some ⟨none, [.mem 0, .child 1 none []]⟩ ∧
+    publishedSk ⟨none, [.mem 0, .child 1 none []]⟩ = .fn [.mem 1] ∧
+    noStateInArms P P.dsp.body = false ∧ noStatefulInArms P P.dsp.body = true ∧ SitesUnique P ∧ SitesOk P.dsp.body := by
   intro gF P
-  refine ⟨rfl, rfl, rfl, rfl, ?_, ?_, ?_⟩
+  refine ⟨rfl, rfl, rfl, rfl, rfl, ?_, ?_⟩
   · intro d hd
     simp only [P, List.mem_cons, List.not_mem_nil, or_false] at hd
     subst hd; simp [SitesOk, siteLens, gF]
   · simp [SitesOk, siteLens, siteLensL, P]
-  · have h2 : ExtL [] [LCell.child 1 none []] := extL_nil_of_zero _ (by simp [sizeCells, LCell.size, selfSize])
-    have := extL_append _ _ _ _ (extL_single (.mem 0) (.mem 0) (by simp [ExtC])) h2
-    simpa using this
 
 end Mimium.LiveCoding
